@@ -107,7 +107,7 @@ def coverage (x : IState) : String :=
   let (it, nested) := iters 10000 { queue := q.scan, seen := q.seen, children := [] } 0 0
   s!"tags={p.digestTags.length} skip={skip} adopt={adopt} requeue={c.rm.length} clash={clash} regen={c.addResp.length} exists={ex} merged={merged} viaAdopt={viaAdopt} dedup={dd} scan={it} nested={nested} children={o.index.children.length}"
 
-def runIngest (df : Def) (store : String) : String :=
+def runIngest (df : Def) (store : String) (cov : Bool) : String :=
   let x := df.st
   let o := ingest idxName id x
   let disk := if store = "dir" ∧ ingestMod x then persist o else x
@@ -115,7 +115,7 @@ def runIngest (df : Def) (store : String) : String :=
   -- the observation must not depend on the order in which the regenerated responses are inserted
   let o' := ingest idxName List.reverse x
   let line' := observe df store o' (if store = "dir" ∧ ingestMod x then persist o' else x)
-  (if line = line' then line else line ++ " ORDER-DEPENDENT[" ++ line' ++ "]") ++ " #cov " ++ coverage x
+  (if line = line' then line else line ++ " ORDER-DEPENDENT[" ++ line' ++ "]") ++ (if cov then " #cov " ++ coverage x else "")
 
 def runReopen (df : Def) (store : String) : String :=
   let x := df.st
@@ -140,7 +140,7 @@ def runCrash (df : Def) (store : String) (mask : Nat) : String :=
   let disk := if store = "dir" ∧ ingestMod x then persist o else x
   observe df store o disk
 
-def step (df : Def) (line : String) : Def × Option String :=
+def step (cov : Bool) (df : Def) (line : String) : Def × Option String :=
   let s := df.st
   match (line.trimAscii.toString.splitOn " ").filter (· ≠ "") with
   | ["NEW"] => ({}, some "ok")
@@ -161,18 +161,21 @@ def step (df : Def) (line : String) : Def × Option String :=
     let d : Desc := { dig := kvI rest "dig", mt := kvI rest "mt", size := (kvI rest "size").toNat?.getD 0,
                       ann := if tag = "" ∧ subj = "" then {} else { isNil := false, tag := tag, subj := subj } }
     ({ df with st := { s with index := { s.index with manifests := s.index.manifests ++ [d] } } }, some "ok")
-  | "INGEST" :: rest => (df, some (runIngest df (kvI rest "store")))
+  | "INGEST" :: rest => (df, some (runIngest df (kvI rest "store") cov))
   | "REOPEN" :: rest => (df, some (runReopen df (kvI rest "store")))
   | "CRASH" :: rest => (df, some (runCrash df (kvI rest "store") ((kvI rest "k").toNat?.getD 0)))
   | _ => (df, some "bad-op")
 
-partial def loop (h : IO.FS.Stream) (out : IO.FS.Stream) (df : Def) : IO Unit := do
+partial def loop (cov : Bool) (h : IO.FS.Stream) (out : IO.FS.Stream) (df : Def) : IO Unit := do
   let line ← h.getLine
   if line.isEmpty then return ()
-  let (df', o) := step df line
+  let (df', o) := step cov df line
   match o with
   | some a => out.putStrLn a
   | none => pure ()
-  loop h out df'
+  loop cov h out df'
 
-def main : IO Unit := do loop (← IO.getStdin) (← IO.getStdout) {}
+/-- with VERIF_COV=1 every INGEST answer is followed by " #cov …", the branch coverage of that conversion -/
+def main : IO Unit := do
+  let cov := (← IO.getEnv "VERIF_COV") == some "1"
+  loop cov (← IO.getStdin) (← IO.getStdout) {}
